@@ -272,11 +272,23 @@ def main():
                 base0b = refs()
                 t = build(path_acts)
                 base = refs()
+                # (the leaves' own reference counts too: a failed call may neither keep nor give away a reference to a node)
+                leaves_ = P.collect_leaves(t) if impl == 'c' else []
+                nbase = [sys.getrefcount(x) for x in leaves_]
                 fn = mk_calls(t)[ci][1]
                 out2, log2 = with_hook(fn, fail_at=j)
                 del fn
                 counts['partb_faults'] += 1
                 after = P.proj(t, emb, is_set)
+                if after == before and [sys.getrefcount(x) for x in leaves_] != nbase:
+                    gc.collect()
+                    nnow = [sys.getrefcount(x) for x in leaves_]
+                    if nnow != nbase:
+                        mism.append(dict(impl=impl, is_set=is_set, sizes=[job['leaf'], job['internal']], tree=tree, op=name, k=0, fail_at=j,
+                                         comparisons=len(log), kind='node-references', real=[b_ - a_ for a_, b_ in zip(nbase, nnow)]))
+                        for x in leaves_:
+                            pass
+                del leaves_
                 w2 = dict(impl=impl, is_set=is_set, sizes=[job['leaf'], job['internal']], tree=tree, op=name, k=0, fail_at=j, comparisons=len(log))
                 if out2 != ['Boom']:
                     mism.append(dict(w2, kind='exception-lost', real=out2))
